@@ -147,8 +147,13 @@ func (ctx *actorContext) Subscribe(topic Topic) Subscription {
 }
 
 func (ctx *actorContext) UnSubscribe(subscription Subscription) {
-	ctx.Tell(ctx.system.subscription, &messages.UnsubscribeRequest{Subscription: subscription.(*messages.Subscription)})
-	delete(ctx.subscriptions, subscription.SubscriptionId())
+	sub := subscription.(*messages.Subscription)
+	ctx.Tell(ctx.system.subscription, &messages.UnsubscribeRequest{Subscription: sub})
+	// subscription ids are unique per node only: the entry is forgotten only if it is this subscription, not one of
+	// another node that carries the same id
+	if own, ok := ctx.subscriptions[sub.Id].(*messages.Subscription); ok && own.Subscriber.Equal(sub.Subscriber) {
+		delete(ctx.subscriptions, sub.Id)
+	}
 }
 
 func (ctx *actorContext) Publish(topic Topic, message Message) {
